@@ -4,7 +4,7 @@ spec fn nfa_edges<V>(n: NfaBuilder<char, V>, s: int) -> Map<char, u32> { n.state
 // structure: state 0 = root, 1 = dead; ids >= 2 form a tree below the root, children have larger ids than parents
 spec fn nfa_tree<V>(n: NfaBuilder<char, V>) -> bool {
     let len = n.states@.len();
-    &&& 2 <= len <= u32::MAX
+    &&& 2 <= len <= u32::MAX as nat + 1
     &&& forall|c: char| !nfa_edges(n, 1).contains_key(c)
     &&& forall|s: int, c: char| 0 <= s < len && #[trigger] nfa_edges(n, s).contains_key(c) ==>
             2 <= nfa_edges(n, s)[c] < len && s < nfa_edges(n, s)[c]
